@@ -410,13 +410,13 @@ Proof.
 Qed.
 
 Lemma gate1_spec : forall i u l l', gate1 i u l = Some l' -> FlagsOK l ->
-  FlagsOK l' /\ length l' = length l
+  FlagsOK l' /\ length l' = length l /\ i < length l
   /\ (forall k, k <> i -> get l' k = get l k)
   /\ (u = true -> forall k, gL (get l' k) = gL (get l k) /\ gR (get l' k) = gR (get l k)).
 Proof.
   unfold gate1. intros i u l l' H F.
   destruct (i <? length l) eqn:E; try discriminate. inversion H; subst; clear H.
-  rewrite length_setS. splits; auto.
+  rewrite length_setS. splits; auto; try lia.
   - apply FlagsOK_setS; auto. destruct u; auto with c08.
   - intros. apply get_setS_neq; auto.
   - intros U k. subst. rewrite get_setS. destruct ((k =? i) && (i <? length l)) eqn:Q; simpl; auto.
@@ -433,14 +433,16 @@ Proof.
 Qed.
 
 Lemma remove_site_spec : forall i l l', remove_site i l = Some l' -> FlagsOK l ->
-  FlagsOK l' /\ S (length l') = length l /\ i < length l
-  /\ (S i < length l -> forall k, get l' k = if k <? i then get l k else if k =? i then blank else get l (S k)).
+  FlagsOK l' /\ S (length l') = length l /\ i < length l /\ 2 <= length l
+  /\ (S i < length l -> forall k, get l' k = if k <? i then get l k else if k =? i then blank else get l (S k))
+  /\ (S i = length l -> forall k, S k < i -> get l' k = get l k).
 Proof.
   unfold remove_site. intros i l l' H F.
   destruct ((i <? length l) && (2 <=? length l)) eqn:E; try discriminate.
   destruct (S i =? length l) eqn:E2; inversion H; subst; clear H.
   - rewrite length_delete by (rewrite length_setS; lia). rewrite length_setS. splits; try lia.
-    apply FlagsOK_delete. apply FlagsOK_setS; auto with c08.
+    + apply FlagsOK_delete. apply FlagsOK_setS; auto with c08.
+    + intros _ k K. rewrite get_delete. replace (k <? i) with true by lia. apply get_setS_neq. lia.
   - rewrite length_delete by (rewrite length_setS; lia). rewrite length_setS. splits; try lia.
     + apply FlagsOK_delete. apply FlagsOK_setS; auto with c08.
     + intros _ k. rewrite get_delete. destruct (k <? i) eqn:K.
@@ -460,10 +462,8 @@ Definition Pres (f : mps -> option mps) (pre : mps -> Prop) : Prop :=
   forall st st', f st = Some st' -> FlagsOK (sites st) ->
     FlagsOK (sites st') /\ length (sites st') = length (sites st) /\ (RecOK st -> pre st -> RecOK st').
 
-Definition lr (ab : absorb) : Prop := ab = ALeft \/ ab = ARight.
-
 Lemma swap_adj_pres : forall i ab calc,
-  Pres (swap_adj i ab calc) (fun st => S i < length (sites st) /\ calc_ok (length (sites st)) calc /\ lr ab).
+  Pres (swap_adj i ab calc) (fun st => S i < length (sites st) /\ calc_ok (length (sites st)) calc).
 Proof.
   intros i ab calc st st' H F. unfold swap_adj in H.
   destruct (canonicalize i (S i) calc st) as [st1|] eqn:C; simpl in H; try discriminate.
@@ -471,9 +471,13 @@ Proof.
   destruct (split_pair i (S i) ab (sites st1)) as [l|] eqn:SP; simpl in H; try discriminate.
   destruct (split_pair_spec _ _ _ _ _ SP F1) as (F2 & L2 & A1 & A2 & A3 & FR & SL & SR).
   inversion H; subst; clear H; simpl. splits; auto; try lia.
-  intros RO (B1 & CO & LR).
+  intros RO (B1 & CO).
   destruct (R1 RO) as (a & b & RR & M1 & M2 & (S1 & S2 & S3 & S4)); auto; try lia.
-  unfold RecOK; simpl. destruct LR; subst ab.
+  assert (WIDE : Sound l i (S i)).
+  { unfold Sound. splits; auto; try lia.
+    - intros k K. rewrite FR by lia. apply S3. lia.
+    - intros k K KL. rewrite FR by lia. apply S4; lia. }
+  unfold RecOK; simpl. destruct ab; auto.
   - unfold Sound. splits; auto; try lia.
     + intros k K. rewrite FR by lia. apply S3. lia.
     + intros k K KL. destruct (k =? S i) eqn:Q.
@@ -488,7 +492,7 @@ Qed.
 
 Lemma fold_swaps_pres : forall js ab calc,
   Pres (fold_swaps js ab calc)
-       (fun st => (forall j, In j js -> S j < length (sites st)) /\ calc_ok (length (sites st)) calc /\ lr ab).
+       (fun st => (forall j, In j js -> S j < length (sites st)) /\ calc_ok (length (sites st)) calc).
 Proof.
   induction js; intros ab calc st st' H F; simpl in H.
   - inversion H; subst. splits; auto.
@@ -496,7 +500,7 @@ Proof.
     destruct (swap_adj_pres _ _ _ _ _ SP F) as (F1 & L1 & R1).
     destruct (IHjs _ _ _ _ H F1) as (F2 & L2 & R2).
     splits; auto; try lia.
-    intros RO (B & CO & LR). apply R2.
+    intros RO (B & CO). apply R2.
     + apply R1; auto. splits; auto. apply B. left. auto.
     + rewrite L1. splits; auto. intros j J. apply B. right. auto.
 Qed.
@@ -508,7 +512,7 @@ Proof. induction n; simpl; intros; try tauto. destruct H; [lia|]. apply IHn in H
 
 Lemma swap_site_to_pres : forall i f ab calc,
   Pres (swap_site_to i f ab calc)
-       (fun st => i < length (sites st) /\ f < length (sites st) /\ calc_ok (length (sites st)) calc /\ ab <> ABoth).
+       (fun st => i < length (sites st) /\ f < length (sites st) /\ calc_ok (length (sites st)) calc).
 Proof.
   intros i f ab calc st st' H F. unfold swap_site_to in H.
   pose proof (decorated_sites st) as DS. pose proof (decorated_RecOK st) as DR.
@@ -516,33 +520,28 @@ Proof.
   - inversion H; subst. rewrite DS. splits; auto.
   - rewrite <- DS in F. destruct (i <? f) eqn:E2.
     + destruct (fold_swaps_pres _ _ _ _ _ H F) as (F1 & L1 & R1). rewrite DS in L1. splits; auto.
-      intros RO (B1 & B2 & CO & AB). apply R1; auto. rewrite DS. splits; auto.
-      * intros j J. apply in_range_up in J. lia.
-      * unfold lr. destruct ab; auto; congruence.
+      intros RO (B1 & B2 & CO). apply R1; auto. rewrite DS. splits; auto.
+      intros j J. apply in_range_up in J. lia.
     + destruct (fold_swaps_pres _ _ _ _ _ H F) as (F1 & L1 & R1). rewrite DS in L1. splits; auto.
-      intros RO (B1 & B2 & CO & AB). apply R1; auto. rewrite DS. splits; auto.
-      * intros j J. apply in_range_down in J. lia.
-      * unfold lr. destruct ab; auto; congruence.
+      intros RO (B1 & B2 & CO). apply R1; auto. rewrite DS. splits; auto.
+      intros j J. apply in_range_down in J. lia.
 Qed.
 
 Lemma swap_sites_pres : forall i j ab calc,
   Pres (swap_sites i j ab calc)
-       (fun st => i < length (sites st) /\ j < length (sites st) /\ i <> j /\ calc_ok (length (sites st)) calc
-                  /\ (lr ab \/ (ab = ADefault /\ S (Nat.min i j) <> Nat.max i j))).
+       (fun st => i < length (sites st) /\ j < length (sites st) /\ i <> j /\ calc_ok (length (sites st)) calc).
 Proof.
   intros i j ab calc st st' H F. unfold swap_sites in H.
   pose proof (decorated_sites st) as DS. pose proof (decorated_RecOK st) as DR.
   rewrite <- DS in F.
   destruct (S (Nat.min i j) =? Nat.max i j) eqn:E.
   - destruct (swap_adj_pres _ _ _ _ _ H F) as (F1 & L1 & R1). rewrite DS in L1. splits; auto.
-    intros RO (B1 & B2 & NE & CO & AB). apply R1; auto. rewrite DS. splits; auto; try lia.
-    destruct AB as [AB | [_ AB]]; auto. lia.
+    intros RO (B1 & B2 & NE & CO). apply R1; auto. rewrite DS. splits; auto; try lia.
   - destruct (swap_site_to (Nat.max i j) (Nat.min i j) ab calc (decorated st)) as [st1|] eqn:S1; simpl in H; try discriminate.
     destruct (swap_site_to_pres _ _ _ _ _ _ S1 F) as (F1 & L1 & R1).
     destruct (swap_site_to_pres _ _ _ _ _ _ H F1) as (F2 & L2 & R2).
     rewrite DS in L1. splits; auto; try lia.
-    intros RO (B1 & B2 & NE & CO & AB).
-    assert (ab <> ABoth) by (destruct AB as [[AB|AB] | [AB _]]; subst; discriminate).
+    intros RO (B1 & B2 & NE & CO).
     apply R2.
     + apply R1; auto. rewrite DS. splits; auto; lia.
     + rewrite L1. splits; auto; lia.
@@ -624,19 +623,21 @@ Qed.
 
 Lemma compress_site_spec : forall i cz calc st st', compress_site i cz calc st = Some st' -> FlagsOK (sites st) ->
   FlagsOK (sites st') /\ length (sites st') = length (sites st)
-  /\ (RecOK st -> i < length (sites st) -> calc_ok (length (sites st)) calc -> cz = true -> RecOK st').
+  /\ (RecOK st -> i < length (sites st) -> calc_ok (length (sites st)) calc -> RecOK st').
 Proof.
   intros i cz calc st st' H F. unfold compress_site in H.
   pose proof (decorated_sites st) as DS. pose proof (decorated_RecOK st) as DR.
   rewrite <- DS in F.
   destruct (if cz then canonicalize i i calc (decorated st) else Some (decorated st)) as [st1|] eqn:C; simpl in H; try discriminate.
   assert (P1 : FlagsOK (sites st1) /\ length (sites st1) = length (sites st)
-     /\ (RecOK st -> i < length (sites st) -> calc_ok (length (sites st)) calc -> cz = true -> rec st1 = RSome i i /\ Sound (sites st1) i i)).
+     /\ (RecOK st -> i < length (sites st) -> calc_ok (length (sites st)) calc ->
+         RecOK st1 /\ (cz = true -> rec st1 = RSome i i))).
   { destruct cz.
     - destruct (canonicalize_spec _ _ _ _ _ C F) as (F1 & L1 & R1). rewrite DS in L1. splits; auto.
-      intros RO B CO _. destruct (R1 (DR RO)) as (x & y & RR & M1 & M2 & SS); rewrite ?DS; auto.
-      pose proof SS as (S1 & _). assert (x = i) by lia. assert (y = i) by lia. subst. auto.
-    - inversion C; subst. splits; auto. rewrite DS; auto. intros; discriminate. }
+      intros RO B CO. destruct (R1 (DR RO)) as (x & y & RR & M1 & M2 & SS); rewrite ?DS; auto.
+      pose proof SS as (S1 & _). assert (x = i) by lia. assert (y = i) by lia. subst.
+      split; auto. unfold RecOK. rewrite RR. auto.
+    - inversion C; subst. splits; auto. rewrite DS; auto. intros. split; auto. intros; discriminate. }
   destruct P1 as (F1 & L1 & R1).
   destruct (if 0 <? i then compress_bond (pred i) ARight (sites st1) else Some (sites st1)) as [l1|] eqn:C1; simpl in H; try discriminate.
   assert (P2 : FlagsOK l1 /\ length l1 = length (sites st1)
@@ -655,15 +656,22 @@ Proof.
     - destruct (compress_bond_spec _ _ _ _ C2 F2) as (A1 & A2 & A3 & A4 & A5 & A6). splits; auto.
     - inversion C2; subst. splits; auto. lia. }
   destruct P3 as (F3 & L3 & FR3 & G3).
+  (* any sound range of st1 widened to contain i is sound afterwards *)
+  assert (AROUND : forall a b a' b', Sound (sites st1) a b -> a' <= a -> b <= b' -> a' <= i -> i <= b' ->
+                   b' < length (sites st1) -> Sound l2 a' b').
+  { intros a b a' b' (S1 & S2 & S3 & S4) Q1 Q2 Q3 Q4 Q5. unfold Sound. splits; auto; try lia.
+    - intros k K. rewrite FR3 by lia. destruct (k =? pred i) eqn:Q.
+      + replace k with (pred i) by lia. apply G2. lia.
+      + rewrite FR2 by lia. apply S3. lia.
+    - intros k K KL. destruct (k =? S i) eqn:Q.
+      + replace k with (S i) by lia. apply G3. lia.
+      + rewrite FR3 by lia. rewrite FR2 by lia. apply S4; lia. }
   inversion H; subst; clear H; simpl. splits; auto; try lia.
-  intros RO B CO CZ. destruct (R1 RO B CO CZ) as (RR & (S1 & S2 & S3 & S4)).
-  unfold RecOK; simpl. rewrite RR. unfold Sound. splits; auto; try lia.
-  - intros k K. rewrite FR3 by lia. destruct (k =? pred i) eqn:Q.
-    + replace k with (pred i) by lia. apply G2. lia.
-    + rewrite FR2 by lia. apply S3. lia.
-  - intros k K KL. destruct (k =? S i) eqn:Q.
-    + replace k with (S i) by lia. apply G3. lia.
-    + rewrite FR3 by lia. rewrite FR2 by lia. apply S4; lia.
+  intros RO B CO. destruct (R1 RO B CO) as (RO1 & RCZ).
+  unfold RecOK in *; simpl. destruct cz.
+  - rewrite (RCZ eq_refl) in *. apply (AROUND i i i i); auto; lia.
+  - unfold widen. destruct (rec st1); auto.
+    pose proof RO1 as (S1 & S2 & _). apply (AROUND a b); auto; lia.
 Qed.
 
 Lemma singular_values_pres : forall i calc,
@@ -691,51 +699,57 @@ Proof.
   unfold RecOK. rewrite RR. auto.
 Qed.
 
-Lemma gate_one_site_pres : forall i u, Pres (gate_one_site i u) (fun _ => u = true).
+Lemma gate_one_site_pres : forall i u, Pres (gate_one_site i u) (fun _ => True).
 Proof.
   intros i u st st' H F. unfold gate_one_site in H.
   destruct (gate1 i u (sites st)) as [l|] eqn:G; simpl in H; try discriminate.
-  destruct (gate1_spec _ _ _ _ G F) as (F1 & L1 & FR & GU).
+  destruct (gate1_spec _ _ _ _ G F) as (F1 & L1 & B1 & FR & GU).
   inversion H; subst; clear H; simpl. splits; auto.
-  intros RO U. unfold RecOK in *. simpl. destruct (rec st); auto.
-  destruct RO as (S1 & S2 & S3 & S4). unfold Sound. rewrite L1. splits; auto.
-  - intros k K. destruct (GU U k) as (A & _). rewrite A. auto.
-  - intros k K KL. destruct (GU U k) as (_ & A). rewrite A. auto.
+  intros RO _. unfold RecOK in *. simpl. destruct u.
+  - destruct (rec st); auto.
+    destruct RO as (S1 & S2 & S3 & S4). unfold Sound. rewrite L1. splits; auto.
+    + intros k K. destruct (GU eq_refl k) as (A & _). rewrite A. auto.
+    + intros k K KL. destruct (GU eq_refl k) as (_ & A). rewrite A. auto.
+  - unfold widen. destruct (rec st); auto.
+    destruct RO as (S1 & S2 & S3 & S4). unfold Sound. rewrite L1. splits; try lia.
+    + intros k K. rewrite FR by lia. apply S3. lia.
+    + intros k K KL. rewrite FR by lia. apply S4; lia.
 Qed.
 
 Lemma measure_spec : forall s rm calc st st', measure s rm calc st = Some st' -> FlagsOK (sites st) ->
   FlagsOK (sites st')
-  /\ (RecOK st -> s < length (sites st) -> (rm = true -> S s < length (sites st)) -> calc_ok (length (sites st)) calc -> RecOK st').
+  /\ (RecOK st -> s < length (sites st) -> calc_ok (length (sites st)) calc -> RecOK st').
 Proof.
   intros s rm calc st st' H F. unfold measure in H.
   pose proof (decorated_sites st) as DS. pose proof (decorated_RecOK st) as DR.
   rewrite <- DS in F.
-  destruct (canonicalize s s calc (decorated st)) as [st1|] eqn:C; simpl in H; try discriminate.
+  destruct (canonicalize s s calc (decorated st)) as [st1|] eqn:C; cbn [bind] in H; try discriminate.
   destruct (canonicalize_spec _ _ _ _ _ C F) as (F1 & L1 & R1). rewrite DS in *.
-  destruct (project s (sites st1)) as [l1|] eqn:P; simpl in H; try discriminate.
+  destruct (project s (sites st1)) as [l1|] eqn:P; cbn [bind] in H; try discriminate.
   destruct (project_spec _ _ _ P F1) as (F2 & L2 & FR2).
   destruct rm.
-  - destruct (remove_site s l1) as [l2|] eqn:RM; simpl in H; try discriminate.
-    destruct (remove_site_spec _ _ _ RM F2) as (F3 & L3 & B3 & G3).
-    inversion H; subst; clear H; simpl. splits; auto.
-    intros RO B BR CO. destruct (R1 (DR RO)) as (x & y & RR & M1 & M2 & (S1 & S2 & S3 & S4)); auto.
-    assert (x = s) by lia. assert (y = s) by lia. subst x y.
-    specialize (BR eq_refl).
-    unfold RecOK; simpl. rewrite RR. unfold Sound. splits; auto; try lia.
-    + intros k K. rewrite G3 by lia. replace (k <? s) with true by lia. rewrite FR2 by lia. apply S3. lia.
-    + intros k K KL. rewrite G3 by lia.
-      replace (k <? s) with false by lia. replace (k =? s) with false by lia.
-      rewrite FR2 by lia. apply S4; lia.
-  - simpl in H. inversion H; subst; clear H; simpl. splits; auto.
-    intros RO B _ CO. destruct (R1 (DR RO)) as (x & y & RR & M1 & M2 & (S1 & S2 & S3 & S4)); auto.
+  - destruct (remove_site s l1) as [l2|] eqn:RM; cbn [bind] in H; try discriminate.
+    destruct (remove_site_spec _ _ _ RM F2) as (F3 & L3 & B3 & B4 & G3 & G4).
+    destruct (S s =? length l1) eqn:LAST; simpl in H; inversion H; subst; clear H; simpl; (split; [auto|]);
+      intros RO B CO; destruct (R1 (DR RO)) as (x & y & RR & M1 & M2 & (S1 & S2 & S3 & S4)); auto;
+      assert (x = s) by lia; assert (y = s) by lia; subst x y; unfold RecOK; simpl.
+    + (* the last site is removed *)
+      unfold Sound. splits; try lia.
+      intros k K. rewrite G4 by lia. rewrite FR2 by lia. apply S3. lia.
+    + rewrite RR. unfold Sound. splits; auto; try lia.
+      * intros k K. rewrite G3 by lia. replace (k <? s) with true by lia. rewrite FR2 by lia. apply S3. lia.
+      * intros k K KL. rewrite G3 by lia.
+        replace (k <? s) with false by lia. replace (k =? s) with false by lia.
+        rewrite FR2 by lia. apply S4; lia.
+  - cbn [bind andb] in H. inversion H; subst; clear H; cbn [sites rec]. splits; auto.
+    intros RO B CO. destruct (R1 (DR RO)) as (x & y & RR & M1 & M2 & (S1 & S2 & S3 & S4)); auto.
     assert (x = s) by lia. assert (y = s) by lia. subst x y.
     unfold RecOK; simpl. rewrite RR. unfold Sound. splits; auto; try lia.
     + intros k K. rewrite FR2 by lia. apply S3. lia.
     + intros k K KL. rewrite FR2 by lia. apply S4; lia.
 Qed.
 
-Lemma dropped_flags : forall w1 w2 calc st st', canonicalize_dropped_copy w1 w2 calc st = Some st' ->
-  sites st' = sites st.
+Lemma dropped_same : forall w1 w2 calc st st', canonicalize_dropped_copy w1 w2 calc st = Some st' -> st' = st.
 Proof.
   intros. unfold canonicalize_dropped_copy in H.
   destruct (canonicalize w1 w2 calc st); simpl in H; try discriminate. inversion H; auto.
@@ -794,24 +808,26 @@ Proof.
   - apply (gate_submpo_pres _ _ _ _ _ _ H F).
   - apply (gate_one_site_pres _ _ _ _ H F).
   - apply (measure_spec _ _ _ _ _ H F).
-  - apply dropped_flags in H. rewrite H. destruct dec; auto. rewrite decorated_sites. auto.
+  - apply dropped_same in H. subst st'. destruct dec; auto. rewrite decorated_sites. auto.
   - apply (local_exp_many_pres _ _ _ _ _ H F).
 Qed.
 
-(* the operations for which the record provably stays sound *)
+(* the domain of the record theorem: every operation of the alphabet, called
+   with sites that exist (an operation on a missing site raises or is outside
+   the documented domain) *)
 Definition good (st : mps) (o : op) : Prop :=
   let L := length (sites st) in
   match o with
   | OCanon _ w1 w2 => w1 < L /\ w2 < L
   | OSingVals _ => True
-  | OCompressSite i cz => i < L /\ cz = true
-  | OSwap i j ab => i < L /\ j < L /\ i <> j /\ (lr ab \/ (ab = ADefault /\ S (Nat.min i j) <> Nat.max i j))
-  | OSwapTo i f ab => i < L /\ f < L /\ ab <> ABoth
+  | OCompressSite i _ => i < L
+  | OSwap i j _ => i < L /\ j < L /\ i <> j
+  | OSwapTo i f _ => i < L /\ f < L
   | OGateAutoSwap i j _ => i < L /\ j < L /\ i <> j
   | OGateSubMPO w1 w2 _ => w1 < L /\ w2 < L
-  | OGate1 _ u => u = true
-  | OMeasure s rm => s < L /\ (rm = true -> S s < L)
-  | ODroppedCopy _ _ _ => False
+  | OGate1 _ _ => True
+  | OMeasure s _ => s < L
+  | ODroppedCopy _ _ _ => True
   | OLocalExpMany ws _ => Forall (fun w => fst w < L /\ snd w < L) ws
   end.
 
@@ -822,14 +838,14 @@ Proof.
   destruct o; simpl in H, G.
   - apply (canon_pres _ _ _ _ _ _ H F); auto. tauto.
   - apply (singular_values_pres _ _ _ _ H F); auto.
-  - destruct G. apply (compress_site_spec _ _ _ _ _ H F); auto.
+  - apply (compress_site_spec _ _ _ _ _ H F); auto.
   - apply (swap_sites_pres _ _ _ _ _ _ H F); auto. tauto.
   - apply (swap_site_to_pres _ _ _ _ _ _ H F); auto. tauto.
   - apply (gate_auto_swap_pres _ _ _ _ _ _ H F); auto. tauto.
   - apply (gate_submpo_pres _ _ _ _ _ _ H F); auto. tauto.
   - apply (gate_one_site_pres _ _ _ _ H F); auto.
-  - destruct G. apply (measure_spec _ _ _ _ _ H F); auto.
-  - tauto.
+  - apply (measure_spec _ _ _ _ _ H F); auto.
+  - apply dropped_same in H. subst st'. destruct dec; auto. apply decorated_RecOK. auto.
   - apply (local_exp_many_pres _ _ _ _ _ H F); auto.
 Qed.
 
@@ -930,16 +946,14 @@ Definition good_b (st : mps) (o : op) : bool :=
   match o with
   | OCanon _ w1 w2 => (w1 <? L) && (w2 <? L)
   | OSingVals _ => true
-  | OCompressSite i cz => (i <? L) && cz
-  | OSwap i j ab => (i <? L) && (j <? L) && negb (i =? j)
-      && (absorb_eqb ab ALeft || absorb_eqb ab ARight
-          || (absorb_eqb ab ADefault && negb (S (Nat.min i j) =? Nat.max i j)))
-  | OSwapTo i f ab => (i <? L) && (f <? L) && negb (absorb_eqb ab ABoth)
+  | OCompressSite i _ => i <? L
+  | OSwap i j _ => (i <? L) && (j <? L) && negb (i =? j)
+  | OSwapTo i f _ => (i <? L) && (f <? L)
   | OGateAutoSwap i j _ => (i <? L) && (j <? L) && negb (i =? j)
   | OGateSubMPO w1 w2 _ => (w1 <? L) && (w2 <? L)
-  | OGate1 _ u => u
-  | OMeasure s rm => (s <? L) && (negb rm || (S s <? L))
-  | ODroppedCopy _ _ _ => false
+  | OGate1 _ _ => true
+  | OMeasure s _ => s <? L
+  | ODroppedCopy _ _ _ => true
   | OLocalExpMany ws _ => forallb (fun w => (fst w <? L) && (snd w <? L)) ws
   end.
 
@@ -948,10 +962,7 @@ Proof.
   intros st o H.
   destruct o as [dec w1 w2 | i | i cz | i j ab | i f ab | i j sb | w1 w2 rev | i u | s rm | dec w1 w2 | ws ip];
     unfold good_b in H; unfold good; cbv zeta in *; auto; try lia.
-  - unfold lr. destruct ab; cbn [absorb_eqb] in H; splits; try lia; auto.
-    right. split; auto. lia.
-  - destruct ab; cbn [absorb_eqb] in H; splits; try lia; discriminate.
-  - rewrite forallb_forall in H. apply Forall_forall. intros w W. apply H in W. lia.
+  rewrite forallb_forall in H. apply Forall_forall. intros w W. apply H in W. lia.
 Qed.
 
 Definition calc_ok_b (L : nat) (c : nat * nat) : bool := (fst c <=? snd c) && (snd c <? L).
@@ -973,9 +984,7 @@ Proof.
   - destruct (step o c st); auto.
 Qed.
 
-(* ------------------------------------------------------- refuted theorems *)
-(* the witness: six sites, centre at site 3, record (3,3), all flags set as
-   canonicalize leaves them *)
+(* a sound six-site state: centre at site 3, record (3,3), flags as canonicalize leaves them *)
 Definition w_state : mps :=
   mkM [mkS true false FL; mkS true false FL; mkS true false FL; blank; mkS false true FR; mkS false true FR]
       (RSome 3 3).
@@ -983,31 +992,11 @@ Definition w_state : mps :=
 Lemma w_state_inv : Inv w_state.
 Proof. apply inv_b_iff. vm_compute. reflexivity. Qed.
 
-Ltac refute o :=
-  match eval vm_compute in (step o (0, 0) w_state) with
-  | Some ?s => exists w_state, s; split; [exact w_state_inv | split; [vm_compute; reflexivity |
-                 let H := fresh in intro H; apply inv_b_iff in H; vm_compute in H; discriminate]]
-  end.
-
-Definition Refuted (o : op) : Prop :=
-  exists st st', Inv st /\ step o (0, 0) st = Some st' /\ ~ Inv st'.
-
-Lemma swap_default_refuted : Refuted (OSwap 2 3 ADefault).
-Proof. refute (OSwap 2 3 ADefault). Qed.
-Lemma swap_both_refuted : Refuted (OSwap 2 3 ABoth) /\ Refuted (OSwap 1 4 ABoth) /\ Refuted (OSwapTo 1 4 ABoth).
-Proof. splits; [refute (OSwap 2 3 ABoth) | refute (OSwap 1 4 ABoth) | refute (OSwapTo 1 4 ABoth)]. Qed.
-Lemma nonunitary_refuted : Refuted (OGate1 1 false) /\ Refuted (OGate1 5 false).
-Proof. splits; [refute (OGate1 1 false) | refute (OGate1 5 false)]. Qed.
-Lemma compress_site_refuted : Refuted (OCompressSite 1 false) /\ Refuted (OCompressSite 5 false).
-Proof. splits; [refute (OCompressSite 1 false) | refute (OCompressSite 5 false)]. Qed.
-Lemma dropped_copy_refuted : Refuted (ODroppedCopy false 0 0) /\ Refuted (ODroppedCopy true 5 5).
-Proof. splits; [refute (ODroppedCopy false 0 0) | refute (ODroppedCopy true 5 5)]. Qed.
-Lemma measure_last_refuted : Refuted (OMeasure 5 true).
-Proof. refute (OMeasure 5 true). Qed.
-
-(* a non-trivial good history from an uncanonicalised state with an empty info dict *)
+(* a history through every formerly refuted operation, from an uncanonicalised
+   5-site state and an empty info dict *)
 Definition demo_ops : list (op * (nat * nat)) :=
-  [ (OGateAutoSwap 4 1 true, (0, 0)); (OSwap 0 3 ADefault, (0, 0)); (OGateSubMPO 1 3 true, (0, 0));
-    (OCompressSite 2 true, (0, 0)); (OMeasure 2 true, (0, 0)); (OSwapTo 3 0 ALeft, (0, 0));
-    (OGate1 2 true, (0, 0)); (OSingVals 2, (0, 0)); (OLocalExpMany [(3, 3); (0, 1)] true, (0, 0)) ].
+  [ (OGateAutoSwap 4 1 true, (0, 0)); (OSwap 2 3 ADefault, (0, 0)); (OSwap 0 3 ABoth, (0, 0));
+    (OGate1 0 false, (0, 0)); (OGateSubMPO 1 3 true, (0, 0)); (OCompressSite 1 false, (0, 0));
+    (ODroppedCopy false 0 0, (0, 0)); (OMeasure 4 true, (0, 0)); (OSwapTo 3 0 ABoth, (0, 0));
+    (OGate1 3 true, (0, 0)); (OSingVals 2, (0, 0)); (OLocalExpMany [(3, 3); (0, 1)] true, (0, 0)) ].
 Definition demo_start : mps := mkM [blank; blank; blank; blank; blank] RUnset.
